@@ -277,6 +277,31 @@ CHECKS = {
    design="6 C15"),
 }
 
+# translation tie (DESIGN §3.3): appended to the level text of the properties whose synchronous code is
+# regenerated from the source on every run and proved equal to the model the theorems are about
+TRANSLATED = {
+ "C17": "Translation tie: every method of tools.PriorityQueue and of PosPriorityQueue/PriorityValue is re-translated from the source "
+        "statement by statement on every run (translator/pq2lean.py, pospq2lean.py) and proved equal to Model/PQ and Model/PosPQ for every "
+        "heap library, state and argument (Lemmas/GenEqPQ 29 theorems, GenEqPosPQ 41), so the refinement theorems are about what the source says now.",
+ "C19": "Translation tie: update_counters, do_maintenance, boost_stragglers, compute_priority_boost, append/append_pri/insert/popleft and the "
+        "underlying PriorityQueue methods are re-translated from the source on every run and proved equal to the model (GenEq, GenEqPosPQ, GenEqPQ).",
+ "C10": "Translation tie: the ready queue (PosPriorityQueue over PriorityQueue) and PrioritySchedulingMixin.queue_*/call_pos/get_priority/"
+        "task_reschedule are re-translated from the source on every run and proved equal to the model (GenEqPosPQ, GenEqPQ, GenEqSched).",
+ "C08": "Translation tie (beyond deque_pop/queue_find/call_pos): _task_reinsert, task_reinsert, sleep_insert, task_switch, create_task_descend, "
+        "create_task_start up to their suspension point, the ready_* wrappers and the three loop classes' queue methods are re-translated on every "
+        "run and proved equal to the model's compound operations (GenEqSched, 18 theorems).",
+ "C09": "Translation tie: task_is_blocked/task_is_runnable, task_from_handle/is_task_callback and task_throw are re-translated from the source on every run "
+        "and proved equal to the kernel model's predicates and events (GenEqC09, GenEqC15).",
+ "C15": "Translation tie: task_throw (Python-task branch), _task_reinsert and the synchronous prefix of task_interrupt are re-translated from the source on "
+        "every run (translator/interrupt2lean.py; an error carries the state at the raise) and proved equal to the kernel model's taskThrow/reinsert "
+        "events for every state (GenEqC15, 8 theorems); c_task_reschedule (C tasks) is not modelled.",
+ "C20": "Translation tie: coro_get_frame, _asyncgen_frame_state, coro_is_new/suspended/finished are re-translated from the source on every run, together with "
+        "inspect.get*state from the verbatim CPython 3.12 text, over an object view, and proved equal to the model's helpers on the whole kind x phase table, "
+        "every prologue length and frame position (GenEqC20, 11 theorems).",
+ "C04": "Translation tie: CoroStart._resume and, for each of the eight entry points, whether every coro.send/throw/close goes through it, and coro_eager's "
+        "copy_context(), are read off the source on every run and proved equal to the model's context selection (GenEqC04, 6 theorems).",
+}
+
 def main():
     checks = []
     for pid in ALL:
@@ -290,7 +315,7 @@ def main():
             "evidence_file": f"evidence/{pid}.json",
             "replay_cmd_template": f"./check {pid} --replay {{path}}",
             "engine": "lean4-proof+correspondence",
-            "level_claimed": {"category": c.get("category", "proof"), "text": c["text"],
+            "level_claimed": {"category": c.get("category", "proof"), "text": c["text"] + (" " + TRANSLATED[pid] if pid in TRANSLATED else ""),
                               "design_ref": "DESIGN.md §" + c["design"]},
             "level_note": c["note"],
             "technique": c["technique"],
@@ -304,7 +329,7 @@ def main():
                   "baseline_off_cmd": "tools/baseline.py", "source_commits": [], "add_only": True},
         "engines": [{"name": "lean4-proof+correspondence", "path": "check",
                      "serves_properties": [c["property_id"] for c in checks],
-                     "kind_free_text": "Lean 4 models + theorems (lean/Asynkit), py2lean translator for the arithmetic core, differential / trace-acceptance correspondence against /repo's working tree, independent property oracles on the real code"}],
+                     "kind_free_text": "Lean 4 models + theorems (lean/Asynkit), translator (translator/*.py) regenerating the synchronous code as Lean definitions proved equal to the models, differential / trace-acceptance correspondence against /repo's working tree, independent property oracles on the real code"}],
         "checks": checks,
         "not_applicable": na,
         "notes": "Single entry point ./check <id> [--tier quick|thorough] [--replay file]; exit 0 held, 1 VIOLATION line printed, 2 infrastructure failure. Fixed defects and open findings: known_findings.json.",
